@@ -374,19 +374,47 @@ pub fn observed_trace(obs: &Observation) -> Vec<String> {
     obs.truth.iter().filter_map(|(_, t)| if let Truth::Custom(s) = t { Some(s.clone()) } else { None }).collect()
 }
 
+pub const INITDYN: &str = "INITDYN:";
+
 pub fn checker(obs: &Observation) -> Vec<(String, String)> {
     if obs.cfg.extra.is_empty() {
         return vec![];
     }
-    let prog: Program = match serde_json::from_str(&obs.cfg.extra) {
+    let (init_dyn, text) = match obs.cfg.extra.strip_prefix(INITDYN) {
+        Some(t) => (true, t),
+        None => (false, obs.cfg.extra.as_str()),
+    };
+    let prog: Program = match serde_json::from_str(text) {
         Ok(p) => p,
         Err(e) => return vec![("machinery: bad program".into(), e.to_string())],
     };
     let roots = roots_of(&obs.cfg.script);
-    let got = observed_trace(obs);
+    let mut got = observed_trace(obs);
+    let mut early: Vec<(String, String)> = vec![];
+    if init_dyn {
+        // the callback of the lane requested from on_init is a handler like any other: it runs
+        // once, after on_start has finished (i.e. after `start` and everything its cascade
+        // recorded, which ends where the first command's entry begins); it is then taken out of
+        // the trace that is compared with the reference
+        let pos: Vec<usize> = got.iter().enumerate().filter(|(_, e)| e.starts_with("dynlane(")).map(|(i, _)| i).collect();
+        let start = got.iter().position(|e| e == "start");
+        let reached_start = start.is_some();
+        let ended_ok = matches!(obs.result, Some(Ok(())));
+        if pos.len() > 1 || (reached_start && ended_ok && pos.is_empty()) {
+            early.push(("law=dynamic_lane_callback_runs_once".into(), format!("the callback of the lane requested from on_init ran {} times; trace {:?}", pos.len(), got)));
+        }
+        if let (Some(p), Some(s)) = (pos.first(), start) {
+            if *p < s {
+                early.push(("law=on_start_runs_first got=dynamic_lane_callback".into(), format!("the callback of the lane requested from on_init ran before on_start; trace {:?}", got)));
+            }
+        } else if let (Some(_), None) = (pos.first(), start) {
+            early.push(("law=on_start_runs_first got=dynamic_lane_callback".into(), format!("the callback of the lane requested from on_init ran although on_start never did; trace {:?}", got)));
+        }
+        got.retain(|e| !e.starts_with("dynlane("));
+    }
     let got_ok = matches!(obs.result, Some(Ok(())));
     let exp = expected(&prog, &roots, Some((&got, got_ok)));
-    let mut out = vec![];
+    let mut out = early;
     let describe = |what: &str| {
         format!(
             "{}\nprogram: {}\nexpected trace: {:?}\nobserved trace: {:?}\nexpected result: {}\nobserved result: {:?}",
